@@ -331,6 +331,7 @@ theorem sim_main (hC : certOK T P F C = true) :
     ∀ (e : Expr), canon P e = true → inFragment F e = true →
     ∀ (u : Nat) (ent : Entry) (ru : Row) (v : Nat) (rv : Row),
       StartFacts T P F C u ent ru v rv → CtxShifts P ent.kind (leftOps P e) →
+      preOK C ent.kind e = true →
     ∀ (st : Stack) (tail rest : List Nat) (l : LA) (dc : Nat)
       (ec : Nat) (eo : Bool) (cn : Nat) (er : Option ErrInfo) (lg : List Nat),
       topState st = u → fetchOf bad tail = some (l, rest, dc) → Valid C P F ent l →
@@ -342,7 +343,7 @@ theorem sim_main (hC : certOK T P F C = true) :
   intro e
   induction e with
   | atom n =>
-    intro _ _ u ent ru v rv S _ st tail rest l dc ec eo cn er lg htop hf hval _
+    intro _ _ u ent ru v rv S _ _ st tail rest l dc ec eo cn er lg htop hf hval _
     subst htop
     obtain ⟨i, hsh, hchain⟩ := S.atom
     have h1 := runN_shift_tok (T := T) (mode := mode) (bad := bad) (st := st) (t := C.atomTok)
@@ -355,8 +356,9 @@ theorem sim_main (hC : certOK T P F C = true) :
     rw [h]
     exact cfg_eq rfl rfl (by omega) (by rw [postorder_chainTree]; simp [PT.postorder])
   | paren e1 ih =>
-    intro hcan hfr u ent ru v rv S _ st tail rest l dc ec eo cn er lg htop hf hval _
+    intro hcan hfr u ent ru v rv S _ hpo st tail rest l dc ec eo cn er lg htop hf hval _
     subst htop
+    rw [preOK] at hpo
     rw [canon] at hcan
     rw [inFragment] at hfr
     obtain ⟨u', e', ru', v', rv', w, rw', PF⟩ := S.paren
@@ -365,6 +367,7 @@ theorem sim_main (hC : certOK T P F C = true) :
     have h1 := runN_shift_tok (T := T) (mode := mode) (bad := bad) (st := st) (t := C.lpar)
       (ts := toks C P e1 ++ C.rpar :: tail) ec eo cn er lg S.hru S.hdu PF.shiftL
     have h2 := ih hcan hfr u' e' ru'' v'' rv'' S' (by rw [PF.kind]; exact ctxShifts_top _)
+      (by rw [PF.kind]; exact hpo)
       ((u', .leaf C.lpar) :: st) (C.rpar :: tail) tail (.tok C.rpar) 1 (ec - 1) eo (cn + 1) er lg
       rfl rfl (Or.inr PF.clR) (reduces_closer G S'.disj PF.clR _)
     have h3 := runN_one (step_shift (T := T) (mode := mode) (bad := bad)
@@ -391,19 +394,21 @@ theorem sim_main (hC : certOK T P F C = true) :
     rw [hin, hn, h, hk]
     exact cfg_eq (by simp [tree]) (by omega) (by omega) (by simp [tree, PT.postorder, postorderL])
   | pre o e1 ih =>
-    intro hcan hfr u ent ru v rv S _ st tail rest l dc ec eo cn er lg htop hf hval hred
+    intro hcan hfr u ent ru v rv S _ hpo st tail rest l dc ec eo cn er lg htop hf hval hred
     subst htop
+    simp only [preOK, Bool.and_eq_true] at hpo
     simp only [canon, Bool.and_eq_true] at hcan
     obtain ⟨⟨_, hce⟩, hsh⟩ := hcan
     simp only [inFragment, Bool.and_eq_true, List.contains_eq_mem, decide_eq_true_eq] at hfr
     obtain ⟨ho, hfe⟩ := hfr
-    obtain ⟨s, e', hshift, hs, hk, hsub⟩ := S.pre o ho
+    obtain ⟨s, e', hshift, hs, hk, hsub⟩ := S.pre o ho hpo.1
     obtain ⟨rs, vs, rvs, S'⟩ := cert_start hC hs
     have h1 := runN_shift_tok (T := T) (mode := mode) (bad := bad) (st := st) (t := o)
       (ts := toks C P e1 ++ tail) ec eo cn er lg S.hru S.hdu hshift
     rw [rightProds] at hred
     have h2 := ih hce hfe s e' rs vs rvs S'
       (by rw [hk]; exact ctxShifts_of_allShift (fun _ => rfl) (by simp) hsh)
+      (by rw [hk]; exact hpo.2)
       ((s, .leaf o) :: st) tail rest l dc (ec - 1) eo (cn + 1) er lg
       rfl hf (valid_mono hsub hval) (reduces_tail hred)
     have hact : rvs.action l.term = .reduce (C.preNo o) :=
@@ -423,8 +428,9 @@ theorem sim_main (hC : certOK T P F C = true) :
     rw [hin, hn, h, hk]
     exact cfg_eq (by simp [tree]) (by omega) (by omega) (by simp [tree, PT.postorder, postorderL])
   | bin o l1 r1 ihl ihr =>
-    intro hcan hfr u ent ru v rv S hctx st tail rest l dc ec eo cn er lg htop hf hval hred
+    intro hcan hfr u ent ru v rv S hctx hpo st tail rest l dc ec eo cn er lg htop hf hval hred
     subst htop
+    simp only [preOK, Bool.and_eq_true] at hpo
     simp only [canon, Bool.and_eq_true, bne_iff_ne, ne_eq] at hcan
     obtain ⟨⟨⟨⟨hob, hcl⟩, hcr⟩, hredl⟩, hshr⟩ := hcan
     simp only [inFragment, Bool.and_eq_true, List.contains_eq_mem, decide_eq_true_eq] at hfr
@@ -432,7 +438,7 @@ theorem sim_main (hC : certOK T P F C = true) :
     rw [leftOps] at hctx
     have hop : IsOp P F o := Or.inl ho
     -- left operand, lookahead = first token of `o`
-    have h1 := ihl hcl hfl (topState st) ent ru v rv S (ctxShifts_tail hctx) st
+    have h1 := ihl hcl hfl (topState st) ent ru v rv S (ctxShifts_tail hctx) hpo.1 st
       (C.opTerm o :: ((C.opRest o).toList ++ (toks C P r1 ++ tail)))
       ((C.opRest o).toList ++ (toks C P r1 ++ tail)) (.tok (C.opTerm o)) 1 ec eo cn er lg
       rfl rfl (Or.inl ⟨o, hop, rfl⟩) (reduces_op G hop hredl)
@@ -449,6 +455,7 @@ theorem sim_main (hC : certOK T P F C = true) :
     rw [rightProds] at hred
     have h3 := ihr hcr hfrr s e' rs vs rvs S'
       (by rw [hk]; exact ctxShifts_of_allShift (fun _ => rfl) (by simp) hshr)
+      (by rw [hk]; exact hpo.2)
       (seg ++ (v, tree C P l1) :: st) tail rest l dc
       (ec - (toks C P l1).length - (1 + (C.opRest o).toList.length)) eo
       (cn + (toks C P l1).length + 1 + (C.opRest o).toList.length) er
@@ -485,8 +492,9 @@ theorem sim_main (hC : certOK T P F C = true) :
     exact cfg_eq (by simp [tree]) (by omega) (by omega)
       (by simp [tree, PT.postorder, postorderL, postorderL_append, postorderL_leaves])
   | btw x y z ihx ihy ihz =>
-    intro hcan hfr u ent ru v rv S hctx st tail rest l dc ec eo cn er lg htop hf hval hred
+    intro hcan hfr u ent ru v rv S hctx hpo st tail rest l dc ec eo cn er lg htop hf hval hred
     subst htop
+    simp only [preOK, Bool.and_eq_true] at hpo
     simp only [canon, Bool.and_eq_true, Bool.not_eq_true', List.contains_eq_mem,
       decide_eq_false_iff_not, bne_iff_ne, ne_eq] at hcan
     obtain ⟨⟨⟨⟨⟨⟨⟨hcx, hcy⟩, hcz⟩, hrx⟩, hry⟩, hand⟩, hsz⟩, hne⟩ := hcan
@@ -495,7 +503,7 @@ theorem sim_main (hC : certOK T P F C = true) :
     rw [leftOps] at hctx
     have hopB : IsOp P F P.btwTok := Or.inr rfl
     -- x, lookahead BETWEEN
-    have h1 := ihx hcx hfx (topState st) ent ru v rv S (ctxShifts_tail hctx) st
+    have h1 := ihx hcx hfx (topState st) ent ru v rv S (ctxShifts_tail hctx) hpo.1.1 st
       (P.btwTok :: (toks C P y ++ P.andTok :: (toks C P z ++ tail)))
       (toks C P y ++ P.andTok :: (toks C P z ++ tail)) (.tok P.btwTok) 1 ec eo cn er lg
       rfl rfl (Or.inl ⟨_, hopB, G.btwTerm.1⟩) (G.btwTerm.1 ▸ reduces_op G hopB hrx)
@@ -515,6 +523,7 @@ theorem sim_main (hC : certOK T P F C = true) :
     have hAnd : IsOp P F P.andTok := Or.inl G.andMem
     have h3 := ihy hcy hfy s1 e1 rs1 vs1 rvs1 S1
       (by rw [hk1]; exact fun a ha => ⟨rfl, fun _ he => hand (he ▸ ha)⟩)
+      (by rw [hk1]; exact hpo.1.2)
       ((s1, .leaf P.btwTok) :: (v, tree C P x) :: st)
       (P.andTok :: (toks C P z ++ tail)) (toks C P z ++ tail) (.tok P.andTok) 1
       (ec - (toks C P x).length - 1) eo (cn + (toks C P x).length + 1) er
@@ -539,6 +548,7 @@ theorem sim_main (hC : certOK T P F C = true) :
     have hval2 : Valid C P F e2 l := valid_mono hsub2 (valid_mono hsub1 hval)
     have h5 := ihz hcz hfz s2 e2 rs2 vs2 rvs2 S2
       (by rw [hk2]; exact ctxShifts_of_allShift (fun _ => rfl) (by simp) hsz)
+      (by rw [hk2]; exact hpo.2)
       ((s2, .leaf P.andTok) :: (vs1, tree C P y) :: (s1, .leaf P.btwTok) :: (v, tree C P x) :: st)
       tail rest l dc
       (ec - (toks C P x).length - 1 - (toks C P y).length - 1) eo
@@ -596,7 +606,8 @@ theorem gotoExpr_of_start {u : Nat} {ent : Entry} {ru : Row} {v : Nat} {rv : Row
 right spine (closers always do). -/
 theorem sim_canon (hC : certOK T P F C = true) (e : Expr) (hcan : canon P e = true)
     (hfr : inFragment F e = true) {u : Nat} {ent : Entry} (hs : C.starts.get? u = some ent)
-    (hctx : CtxShifts P ent.kind (leftOps P e)) (c : Cfg) (htop : topState c.st = u)
+    (hctx : CtxShifts P ent.kind (leftOps P e)) (hpo : preOK C ent.kind e = true)
+    (c : Cfg) (htop : topState c.st = u)
     (hla : c.la = none) (hlas : c.las = []) {tail rest : List Nat} {l : LA} {dc : Nat}
     (hf : fetchOf bad tail = some (l, rest, dc)) (hval : Valid C P F ent l)
     (hred : Reduces C P F (rightProds P e) l) (hin : c.input = toks C P e ++ tail) :
@@ -608,7 +619,7 @@ theorem sim_canon (hC : certOK T P F C = true) (e : Expr) (hcan : canon P e = tr
   obtain ⟨st, inp, la, las, ec, eo, cn, er, lg⟩ := c
   simp only at htop hla hlas hin
   subst hla hlas hin
-  exact sim_main hC e hcan hfr u ent ru v rv S hctx st tail rest l dc ec eo cn er lg htop hf hval hred
+  exact sim_main hC e hcan hfr u ent ru v rv S hctx hpo st tail rest l dc ec eo cn er lg htop hf hval hred
 
 theorem closer_valid {ent : Entry} {l : LA} (h : Closer ent l) : Valid C P F ent l := by
   cases l with
@@ -635,10 +646,106 @@ theorem inFragment_addParens (S : Strata) (e : Expr) :
   | bin o l r ihl ihr => simp only [addParens, inFragment, inFragment_wrapIf, ihl, ihr]
   | btw x y z ihx ihy ihz => simp only [addParens, inFragment, inFragment_wrapIf, ihx, ihy, ihz]
 
+/-! ### prefix operators stand only where the start states open them -/
+
+/-- the roles a position of a fragment tree can have -/
+def KindIn (F : Fragment) (k : Kind) : Prop :=
+  k = .top ∨ k = .btw ∨ k = .band ∨ (∃ o, o ∈ F.bins ∧ k = .opr o) ∨ (∃ o, o ∈ F.pres ∧ k = .pre o)
+
+theorem preCompat_spec {S : Strata} (h : preCompat C S F = true) {k : Kind} (hk : KindIn F k)
+    {o : Nat} (ho : o ∈ F.pres) (hle : kindStratum S k ≤ S.pre o) : preAllowed C k o = true := by
+  simp only [preCompat, List.all_eq_true, List.mem_append, List.mem_cons, List.mem_map,
+    Bool.or_eq_true, Bool.not_eq_true', List.not_mem_nil, or_false] at h
+  have hm : ((k = .top ∨ k = .btw ∨ k = .band) ∨ ∃ a, a ∈ F.bins ∧ Kind.opr a = k) ∨
+      ∃ a, a ∈ F.pres ∧ Kind.pre a = k := by
+    rcases hk with h1 | h1 | h1 | ⟨a, ha, h1⟩ | ⟨a, ha, h1⟩
+    · exact Or.inl (Or.inl (Or.inl h1))
+    · exact Or.inl (Or.inl (Or.inr (Or.inl h1)))
+    · exact Or.inl (Or.inl (Or.inr (Or.inr h1)))
+    · exact Or.inl (Or.inr ⟨a, ha, h1.symm⟩)
+    · exact Or.inr ⟨a, ha, h1.symm⟩
+  rcases h k hm o ho with h2 | h2
+  · have : Nat.ble (kindStratum S k) (S.pre o) = true := Nat.ble_eq_true_of_le hle
+    rw [this] at h2
+    cases h2
+  · exact h2
+
+theorem preOK_wrapIf {k : Kind} {c : Bool} {e : Expr} (h1 : preOK C .top e = true)
+    (h2 : c = false → preOK C k e = true) : preOK C k (wrapIf c e) = true := by
+  cases c with
+  | true => simpa [wrapIf, preOK] using h1
+  | false => simpa [wrapIf] using h2 rfl
+
+theorem stratum_addParens (S : Strata) (e : Expr) : stratum S (addParens S e) = stratum S e := by
+  cases e <;> rfl
+
+/-- the minimally parenthesised print of a fragment tree uses prefix operators only where they are
+allowed -/
+theorem preOK_addParens {S : Strata} (h : preCompat C S F = true) (e : Expr)
+    (he : inFragment F e = true) :
+    ∀ k, KindIn F k → kindStratum S k ≤ stratum S e → preOK C k (addParens S e) = true := by
+  induction e with
+  | atom n => intro k _ _; rfl
+  | paren e ih =>
+    intro k _ _
+    simp only [inFragment] at he
+    simp only [addParens, preOK]
+    exact ih he .top (Or.inl rfl) (Nat.zero_le _)
+  | pre o e ih =>
+    intro k hk hle
+    simp only [inFragment, Bool.and_eq_true, List.contains_eq_mem, decide_eq_true_eq] at he
+    obtain ⟨ho, hi⟩ := he
+    simp only [addParens, preOK, Bool.and_eq_true]
+    refine ⟨preCompat_spec h hk ho (by simpa [stratum] using hle), ?_⟩
+    apply preOK_wrapIf (ih hi .top (Or.inl rfl) (Nat.zero_le _))
+    intro hc
+    apply ih hi (.pre o) (Or.inr (Or.inr (Or.inr (Or.inr ⟨o, ho, rfl⟩))))
+    simp at hc
+    simpa [kindStratum] using hc
+  | bin o l r ihl ihr =>
+    intro k hk hle
+    simp only [inFragment, Bool.and_eq_true, List.contains_eq_mem, decide_eq_true_eq] at he
+    obtain ⟨⟨ho, hl⟩, hr⟩ := he
+    simp only [stratum] at hle
+    simp only [addParens, preOK, Bool.and_eq_true]
+    constructor
+    · apply preOK_wrapIf (ihl hl .top (Or.inl rfl) (Nat.zero_le _))
+      intro hc
+      apply ihl hl k hk
+      split at hc <;> simp at hc <;> omega
+    · apply preOK_wrapIf (ihr hr .top (Or.inl rfl) (Nat.zero_le _))
+      intro hc
+      apply ihr hr (.opr o) (Or.inr (Or.inr (Or.inr (Or.inl ⟨o, ho, rfl⟩))))
+      simp at hc
+      simp only [kindStratum]
+      omega
+  | btw x y z ihx ihy ihz =>
+    intro k hk hle
+    simp only [inFragment, Bool.and_eq_true] at he
+    obtain ⟨⟨hx, hy⟩, hz⟩ := he
+    simp only [stratum] at hle
+    simp only [addParens, preOK, Bool.and_eq_true]
+    refine ⟨⟨?_, ?_⟩, ?_⟩
+    · apply preOK_wrapIf (ihx hx .top (Or.inl rfl) (Nat.zero_le _))
+      intro hc
+      apply ihx hx k hk
+      simp at hc
+      omega
+    · apply preOK_wrapIf (ihy hy .top (Or.inl rfl) (Nat.zero_le _))
+      intro hc
+      apply ihy hy .btw (Or.inr (Or.inl rfl))
+      simp at hc
+      simpa [kindStratum] using hc
+    · apply preOK_wrapIf (ihz hz .top (Or.inl rfl) (Nat.zero_le _))
+      intro hc
+      apply ihz hz .band (Or.inr (Or.inr (Or.inl rfl)))
+      simp at hc
+      simpa [kindStratum] using hc
+
 /-- canonical trees in a context with nothing pending (`Kind.top`), closed by a closer -/
 theorem sim_top (hC : certOK T P F C = true) (e : Expr) (hcan : canon P e = true)
     (hfr : inFragment F e = true) {u : Nat} {ent : Entry} (hs : C.starts.get? u = some ent)
-    (hk : ent.kind = .top) (c : Cfg) (htop : topState c.st = u)
+    (hk : ent.kind = .top) (hpo : preOK C .top e = true) (c : Cfg) (htop : topState c.st = u)
     (hla : c.la = none) (hlas : c.las = []) {tail rest : List Nat} {l : LA} {dc : Nat}
     (hf : fetchOf bad tail = some (l, rest, dc)) (hcl : Closer ent l)
     (hin : c.input = toks C P e ++ tail) :
@@ -646,13 +753,14 @@ theorem sim_top (hC : certOK T P F C = true) (e : Expr) (hcan : canon P e = true
       runN T mode bad (simSteps C e) c =
         some (afterExpr c v (tree C P e) l rest (toks C P e).length dc) := by
   obtain ⟨ru, v, rv, S⟩ := cert_start hC hs
-  exact sim_canon hC e hcan hfr hs (by rw [hk]; exact ctxShifts_top _) c htop hla hlas hf
+  exact sim_canon hC e hcan hfr hs (by rw [hk]; exact ctxShifts_top _) (by rw [hk]; exact hpo) c htop
+    hla hlas hf
     (closer_valid hcl) (closer_reduces (cert_global hC) S.disj hcl _) hin
 
 /-- **simulation, SQL grouping** (Level B): under Φ3a (`sqlOrder`) and the certificate, the real
 driver builds the tree of `addParens S e` from its printed tokens. -/
 theorem sim_sql (hC : certOK T P F C = true) (S : Strata) (hO : sqlOrder P S F = true)
-    (e : Expr) (hfr : inFragment F e = true) {u : Nat} {ent : Entry}
+    (hPC : preCompat C S F = true) (e : Expr) (hfr : inFragment F e = true) {u : Nat} {ent : Entry}
     (hs : C.starts.get? u = some ent) (hk : ent.kind = .top) (c : Cfg) (htop : topState c.st = u)
     (hla : c.la = none) (hlas : c.las = []) {tail rest : List Nat} {l : LA} {dc : Nat}
     (hf : fetchOf bad tail = some (l, rest, dc)) (hcl : Closer ent l)
@@ -661,8 +769,8 @@ theorem sim_sql (hC : certOK T P F C = true) (S : Strata) (hO : sqlOrder P S F =
       runN T mode bad (simSteps C (addParens S e)) c =
         some (afterExpr c v (tree C P (addParens S e)) l rest
           (toks C P (addParens S e)).length dc) :=
-  sim_top hC _ (sql_canon P S F hO e hfr) (by rw [inFragment_addParens]; exact hfr) hs hk c htop
-    hla hlas hf hcl hin
+  sim_top hC _ (sql_canon P S F hO e hfr) (by rw [inFragment_addParens]; exact hfr) hs hk
+    (preOK_addParens hPC e hfr .top (Or.inl rfl) (Nat.zero_le _)) c htop hla hlas hf hcl hin
 
 /-- Boolean forms of the side conditions, for `decide +kernel` on generated data -/
 def shiftsTo (T : Tables) (u0 t0 u : Nat) : Bool :=
@@ -678,6 +786,7 @@ def topStartWith (C : Cert) (u a : Nat) : Bool :=
 /-- **a whole expression context**: a token `t0` shifted from state `u0` into the expression-start
 state `u` (e.g. `SELECT` from the initial state), the expression, a closing token `a`. -/
 theorem sim_sql_ctx (hC : certOK T P F C = true) (S : Strata) (hO : sqlOrder P S F = true)
+    (hPC : preCompat C S F = true)
     {u0 t0 u a : Nat} (hsh : shiftsTo T u0 t0 u = true) (hent : topStartWith C u a = true)
     (e : Expr) (hfr : inFragment F e = true) (c : Cfg) (htop : topState c.st = u0)
     (hla : c.la = none) (hlas : c.las = []) (rest : List Nat)
@@ -702,7 +811,7 @@ theorem sim_sql_ctx (hC : certOK T P F C = true) (S : Strata) (hO : sqlOrder P S
       have h1 := runN_shift_tok (T := T) (mode := mode) (bad := bad) (st := st) (t := t0)
         (ts := toks C P (addParens S e) ++ a :: rest) ec eo cn er lg (rowND_some hr0).1
         (rowND_some hr0).2 hsh'
-      obtain ⟨v, hv, h2⟩ := sim_sql (T := T) (mode := mode) (bad := bad) hC S hO e hfr hs hent.1
+      obtain ⟨v, hv, h2⟩ := sim_sql (T := T) (mode := mode) (bad := bad) hC S hO hPC e hfr hs hent.1
         ⟨(u, .leaf t0) :: st, toks C P (addParens S e) ++ a :: rest, none, [], ec - 1, eo, cn + 1,
           er, lg⟩ rfl rfl rfl (tail := a :: rest) (rest := rest) (l := .tok a) (dc := 1) rfl
         hent.2 rfl
